@@ -192,6 +192,8 @@ def lookup_rule(ctx, rep, se):
     for lp in util.for_loops(ctx, se):
         if "slice::IterMut" not in (lp["resolved"] or ""):
             continue
+        if not lp["only_exit"]:
+            continue        # a pass that can be left early (break / return inside) is not a pass over every digit
         src = lp["init"]
         if src is not None and strip(src)[0] == "mutref" and lp["init_call"] is not None:
             old = se.call_old.get((lp["init_call"][3][:2], 0))
@@ -211,6 +213,9 @@ def lookup_rule(ctx, rep, se):
             continue
         elem = lp["elem"]
         stores = [(k, v) for k, (loc, v) in se.assigns.items() if loc == ("deref", elem) or (loc[0] == "deref" and strip(loc[1]) == strip(elem))]
+        idom_ = cfg.dominators(body)
+        if not all(cfg.dominates(idom_, k[0], t_) for k, v in stores for t_, h_ in cfg.back_edges(body) if h_ == lp["next_bb"]):
+            continue        # a pass whose store some iterations skip is not a pass over every digit
         passes.append((lp["next_bb"], elem, stores))
     passes.sort()
     good = False
